@@ -268,6 +268,45 @@ fn check_meta_user_edit(which: u8, cut: Option<usize>) -> Option<String> {
     None
 }
 
+/// The declaring `<meta>` sits inside content a handler is removing: the switch still happens and
+/// the sink is told before any byte in the new encoding arrives.
+fn check_meta_in_removed(which: u8, cut: Option<usize>) -> Option<String> {
+    let op = match which {
+        0 => Op::Remove,
+        1 => Op::SetInner("x".into(), true),
+        _ => Op::Replace("y".into(), true),
+    };
+    let hs = vec![HSpec { log: false, ..HSpec::with_ops(HKind::Element, "head", vec![op]) }, HSpec::obs(HKind::DocText, "")];
+    let p = Prepared::new(Cfg { adjust_charset: true, ..Cfg::with(hs).strict(false) }).ok()?;
+    let mut doc = b"A<head><meta charset=windows-1251></head>".to_vec();
+    doc.extend_from_slice(&[0xC6, b'<', b'p', b'>', 0xE6]);
+    let chunks: Vec<&[u8]> = match cut {
+        Some(c) => vec![&doc[..c], &doc[c..]],
+        None => vec![&doc],
+    };
+    let rr = run(&p, &chunks, true);
+    if !rr.all_ok() {
+        return Some(format!("run failed: {:?}", rr.first_failure().map(|(_, r)| r.short())));
+    }
+    let text: String = rr.events.iter().filter_map(|e| if let Ev::Text { text, .. } = e { Some(text.as_str()) } else { None }).collect();
+    if text != "A\u{416}\u{436}" {
+        return Some(format!("<meta charset=windows-1251> inside removed content: text read as {text:?}, expected \"A\u{416}\u{436}\""));
+    }
+    let mut told = "UTF-8".to_string();
+    for e in &rr.sink {
+        match e {
+            SinkEv::SetEncoding(n) => told = n.clone(),
+            SinkEv::Chunk(c) if c.contains(&0xC6) || c.contains(&0xE6) => {
+                if told != "windows-1251" {
+                    return Some(format!("<meta charset=windows-1251> inside removed content: bytes in the new encoding ({}) reach the sink while it has only been told {told}", hex(c)));
+                }
+            }
+            _ => {}
+        }
+    }
+    None
+}
+
 /// meta charset: at most one switch, only for later tokens, sink notified in between.
 fn check_meta(enc0: &'static Encoding, label: &str, second_label: Option<&str>, cuts: &[usize], scan_mode: bool, unit: &[u8]) -> Option<String> {
     check_meta_form(enc0, label, second_label, cuts, scan_mode, unit, false)
@@ -452,6 +491,7 @@ pub fn replay(case: &Value) -> Option<String> {
         }
         "insert" => check_insert(enc, case["content"].as_str()?, case["html"].as_bool()?),
         "bailout-insert" => check_bail_out_insert(enc, case["content"].as_str()?, case["html"].as_bool()?),
+        "meta-in-removed" => check_meta_in_removed(case["which"].as_u64()? as u8, case["cut"].as_u64().map(|c| c as usize)),
         "meta-user-edit" => check_meta_user_edit(case["which"].as_u64()? as u8, case["cut"].as_u64().map(|c| c as usize)),
         "bailout-on-meta" => check_bail_out_on_meta(enc, case["label"].as_str()?, case["content"].as_str()?, case["cut"].as_u64().map(|c| c as usize)),
         "meta" => {
@@ -687,6 +727,18 @@ pub fn run_check(ctx: &Ctx) -> i32 {
             }
         }
     }
+    for which in 0u8..3 {
+        for cut in std::iter::once(None).chain((1..45).map(Some)) {
+            ctx.exec(2);
+            ctx.validated(1);
+            if let Some(msg) = check_meta_in_removed(which, cut) {
+                let case = json!({"kind": "meta-in-removed", "encoding": "UTF-8", "which": which, "cut": cut});
+                let c2 = case.clone();
+                ctx.violation(msg, case, &|| replay(&c2));
+            }
+        }
+    }
+    ctx.level_done("(b3) the declaring meta element inside content being removed / replaced x every cut: the switch happens, the sink is told before bytes in the new encoding arrive");
     ctx.level_done("(b'') a user handler removes / overwrites the charset attribute of the declaring meta element x every cut: the document's declaration still decides");
     ctx.level_done("(b') a handler on <meta charset=L> fails (4 initial encodings x 8 labels x 3 contents x 3 schedules): the bail-out handler's content arrives in the encoding the sink has been told");
     // (c) meta charset
